@@ -63,7 +63,7 @@ def gen_cfg(rng, thorough):
 
 
 def exact_part(ck, rng, thorough):
-    n = 600 if thorough else 150
+    n = 3000 if thorough else 150
     worst_ratio = F(0)
     notconv = 0
     budget_hits = [0]
@@ -149,7 +149,7 @@ def float_part(ck, rng, thorough):
     from pySDC.helpers.stats_helper import get_sorted
     import scipy.sparse as sp
     worst = 0.0
-    n = 160 if thorough else 40
+    n = 400 if thorough else 40
     for i in range(n):
         which = rng.choice(['test', 'heat', 'advection'])
         nl = rng.choice([1, 2]) if which != 'test' else 1
